@@ -33,15 +33,21 @@ CHECKS = [
         "machine-checked proof (Coq invariant + measure over an LTS) + trace correspondence under a deterministic scheduler",
         "DESIGN.md section 5, C03"),
     chk("C01",
-        "Coq theorems: the serial walk's callbacks are exactly the live non-leaf tiles of the sub-pyramid, each once, "
-        "children first (walk_serial_spec with C13's enumeration theorems), for every depth/kind/filter/apex; the parallel "
-        "walk is a Gallina LTS (dispatcher, ready/done queues with per-process feeders, readiness table, workers with "
-        "non-atomic callbacks) whose theorems are being extended (see Properties/C01.v for what is proved). Tie to /repo: "
-        "real Pyramid.walk(parallel=k) runs unmodified under a deterministic scheduler and every trace is replayed on the "
-        "LTS in Coq (enabled sets per step, callback start/end log, outcome); real fork runs judged by the predicate.",
-        "Trusted: Coq kernel + vm_compute, Model/WalkPar.v, Model/Reducer.v, harness/detsched.py fakes; fairness for "
-        "termination; Empty only on an empty pipe.",
-        "machine-checked proof (Coq) + trace correspondence under a deterministic scheduler", "DESIGN.md section 5, C01"),
+        "Machine-checked (Coq, no axioms) for all well-formed pyramids (generic / TOAST / filtered, any apex), all worker "
+        "counts par >= 1, pipe capacities >= 1 and ALL schedules of the walk LTS (dispatcher, ready/done queues with "
+        "per-process feeders, readiness table, workers with non-atomic callbacks): callbacks only for live non-leaf tiles of "
+        "the sub-pyramid, at most once, and a tile's callback starts only after the callbacks of all its live non-leaf "
+        "children returned (walk_par_safety, every reachable state); on return exactly once each and every worker exited 0 "
+        "(walk_par_terminal); immediate return when there is nothing to do; equals the serial walk (walk_par_eq_serial, "
+        "walk_serial_spec); the dispatcher never raises; no deadlock after at most one polling move and a strictly "
+        "decreasing progress measure (termination up to fairness). Tie to /repo: real Pyramid.walk(parallel=k) runs "
+        "unmodified under a deterministic scheduler, every trace (enabled set + chosen action per step, callback start/end "
+        "log, outcome) is replayed on the LTS inside Coq; serial walk compared with the reducer model; real fork runs "
+        "judged by the predicate.",
+        "Trusted: Coq kernel + vm_compute, Model/WalkPar.v + Model/Reducer.v, harness/detsched.py fakes of "
+        "multiprocessing (Empty only on an empty pipe); fairness for termination; raising callbacks are C19's subject.",
+        "machine-checked proof (Coq LTS invariant by occurrence counting, no-deadlock, measure) + trace correspondence under a deterministic scheduler",
+        "DESIGN.md section 5, C01"),
     chk("C10",
         "Coq theorems over a Gallina LTS of PyramidIO.update_image's protocol (try-acquire of the soft file lock, read, "
         "in-place write with a Partial window, release) for ANY number of updaters, arbitrary update functions on an "
